@@ -47,7 +47,7 @@ def gen_cell(g, j, i):
 def build_text(sc):
     nc = sc["ncols"]
     curves = [("DEPT", "M", "", "index")] + [("C%d" % j, "U", "", "curve %d" % j) for j in range(1, nc)]
-    lines = docmodel.version_section(sc.get("vers", 2.0), "NO")
+    lines = docmodel.version_section(sc.get("vers", 2.0), "NO", sc.get("dlm"))
     lines += docmodel.well_section(100.0, 101.0, 0.5, -999.25, "M", (("COMP", "", "ACME", "COMPANY"),), version=sc.get("vers", 2.0))
     lines += docmodel.curve_section(curves)
     for s in sc.get("pre", []):
@@ -110,9 +110,13 @@ class C02(Prop):
         if g.random() < 0.05:
             nr = g.randint(18, 30)
         rows = []
+        dlm = g.choice([None, None, "SPACE", "TAB"])
+        seps = [s for s in SEPS if "\t" in s] + ["\t ", " \t "] if dlm == "TAB" else SEPS
+        same_pad = g.random() < 0.3          # identical padding on every line (e.g. a trailing tab everywhere)
+        pad = (g.choice(LEADS), g.choice(seps), g.choice(TRAILS))
         for i in range(nr):
-            rows.append({"cells": [gen_cell(g, j, i) for j in range(nc)], "lead": g.choice(LEADS), "sep": g.choice(SEPS),
-                         "trail": g.choice(TRAILS)})
+            l, sp, t = pad if same_pad else (g.choice(LEADS), g.choice(seps), g.choice(TRAILS))
+            rows.append({"cells": [gen_cell(g, j, i) for j in range(nc)], "lead": l, "sep": sp, "trail": t})
         noise = []
         if g.random() < 0.6:
             for _ in range(g.randint(1, 4)):
@@ -126,7 +130,7 @@ class C02(Prop):
             pre = [list(g.choice(TAILS[:3]))]
         cfg = draw_read_channel(g, ascii_only=True)
         return {"ncols": nc, "rows": rows, "noise": noise, "title": g.choice(TITLES), "tail": tail, "pre": pre,
-                "final_newline": g.random() < 0.6, "vers": g.choice([1.2, 2.0]), "channel": cfg,
+                "final_newline": g.random() < 0.6, "vers": g.choice([1.2, 2.0]), "dlm": dlm, "channel": cfg,
                 "policy": Policy.draw(st.io).to_json(), "force_fallback": st.fault.random() < 0.3}
 
     def read(self, sc, text, engine, force=False):
@@ -216,10 +220,15 @@ class C02(Prop):
                 r["cells"] = r["cells"][:-1]
             yield d
         for i, r in enumerate(sc["rows"]):
-            if (r["lead"], r["sep"], r["trail"]) != (" ", " ", ""):
+            std = ("", "\t", "") if sc.get("dlm") == "TAB" else (" ", " ", "")
+            if (r["lead"], r["sep"], r["trail"]) != std:
                 d = copy.deepcopy(sc)
-                d["rows"][i].update({"lead": " ", "sep": " ", "trail": ""})
+                d["rows"][i].update({"lead": std[0], "sep": std[1], "trail": std[2]})
                 yield d
+        if sc.get("dlm") == "SPACE":
+            d = copy.deepcopy(sc)
+            d["dlm"] = None
+            yield d
         if sc["channel"]["channel"] != "stringio":
             d = copy.deepcopy(sc)
             d["channel"] = {"channel": "stringio", "codec": "utf-8", "explicit": False,
